@@ -13,11 +13,13 @@ RULE = evolib.__doc__ and ('as C08; emphasis on dt in {real, imaginary, complex}
 correspondence = evolib.corr_tdvp
 
 
-def full_mps(rng, L, qd, cplx=True):
-    """random state with maximal bond dimensions, all charges zero (complete manifold)"""
+def full_mps(rng, L, qd, cplx=True, fat=False):
+    """random state with maximal (or, with `fat`, over-complete) bond dimensions, all charges zero (complete manifold)"""
     import pytenet as ptn
     d = len(qd)
     D = [min(d ** i, d ** (L - i)) for i in range(L + 1)]
+    if fat:
+        D = [D[i] + (int(rng.integers(0, 3)) if 0 < i < L else 0) for i in range(L + 1)]
     psi = ptn.MPS(np.zeros(d, dtype=int), [np.zeros(Di, dtype=int) for Di in D], fill='postpone')
     psi.A = [rng.standard_normal((d, D[i], D[i + 1])) + (1j * rng.standard_normal((d, D[i], D[i + 1])) if cplx else 0) for i in range(L)]
     return psi
@@ -35,11 +37,14 @@ def oracle_case(rng):
     if np.abs(Hd - Hd.conj().T).max() > 1e-12:
         return None
     scale = max(1.0, np.linalg.norm(Hd, 2))
-    dtv = complex(rng.choice([0.1, 0.1j, -0.05j, 0.05 + 0.1j, -0.1 + 0.05j])) / scale
+    # |dt| * ||H|| up to about 1.5: with exact local exponentials the integrator is exact / reversible for any such dt,
+    # and a truncated local Krylov space shows up far above rounding
+    dtv = complex(rng.choice([0.1, 0.1j, -0.05j, 0.05 + 0.1j, -0.1 + 0.05j])) / scale * float(rng.choice([1, 5, 12]))
     n = int(rng.integers(1, 4))
     try:
         if k == 0:
-            psi = full_mps(rng, L, qd0, cplx=bool(rng.random() < 0.6))     # real-dtype states with complex Hamiltonians included
+            # real-dtype states with complex Hamiltonians included; over-complete ("fat") bonds admit every vector as well
+            psi = full_mps(rng, L, qd0, cplx=bool(rng.random() < 0.6), fat=bool(rng.random() < 0.4))
             v0 = dense_mps(psi); v0 = v0 / np.linalg.norm(v0)
             numiter = max(d * max(psi.bond_dims) ** 2, d * d * max(psi.bond_dims) ** 2) + 2
             if two:
@@ -55,11 +60,14 @@ def oracle_case(rng):
             psi = full_mps(rng, L, qd0, cplx=bool(rng.random() < 0.6))
             if L >= 2 and rng.random() < 0.7:
                 # reduce bond dimensions
-                D = [1] + [int(rng.integers(1, 3)) for _ in range(L - 1)] + [1]
-                psi.A = [a[:, :D[i], :D[i + 1]].copy() for i, a in enumerate(psi.A)]
+                D = [1] + [int(rng.integers(1, 5)) for _ in range(L - 1)] + [1]
+                psi.A = [rng.standard_normal((d, D[i], D[i + 1])) + 1j * rng.standard_normal((d, D[i], D[i + 1])) for i in range(L)]
                 psi.qD = [np.zeros(Di, dtype=int) for Di in D]
-            psi.orthonormalize(mode='right')
-            v0 = dense_mps(psi)
+            if rng.random() < 0.5:
+                psi.orthonormalize(mode='right')
+            # otherwise the state is handed over as it is (unnormalised, possibly with bonds larger than the neighbours allow):
+            # the first call evolves the normalised input, the second call must bring it back
+            v0 = dense_mps(psi); v0 = v0 / np.linalg.norm(v0)
             numiter = d * max(psi.bond_dims) ** 2 + 2
             ptn.integrate_local_singlesite(H, psi, dtv, n, numiter_lanczos=numiter)
             nrm2 = ptn.integrate_local_singlesite(H, psi, -dtv, n, numiter_lanczos=numiter)
